@@ -55,6 +55,8 @@ def choose_cells(rng, cand, k, style):
     k = max(0, min(k, len(cand)))
     if k == 0:
         return []
+    if style == "scatter" and k > 120:
+        style = "blocks"             # thousands of single-cell gaps only inflate the case literals
     if style == "block":
         s = rng.randrange(0, len(cand) - k + 1)
         return cand[s:s + k]
